@@ -37,6 +37,18 @@ impl VShuffle for Vec<ProofWithPublicInputs<GoldilocksField, PoseidonGoldilocksC
     #[verifier::external_body]
     fn shuffle(&mut self, rng: &mut ThreadRng) { unimplemented!() }
 }
+/// the process's randomness as an effect (rule N14): every dummy-preimage draw is logged, so "one fresh draw per slot" is a statement about the log
+#[verifier::external_body]
+pub struct RngWorld { _p: u8 }
+impl RngWorld {
+    /// every preimage drawn so far, in order
+    pub uninterp spec fn draws(&self) -> Seq<BytesDigest>;
+    /// generate_random_nullifier_preimage(): 32 random bytes re-drawn until they are a canonical digest; one entry of the log
+    #[verifier::external_body]
+    pub fn draw(&mut self) -> (r: BytesDigest)
+        ensures digest_canonical(r.0@), final(self).draws() == old(self).draws().push(r),
+    { unimplemented!() }
+}
 /// common/src/utils.rs: 32 random bytes re-drawn until they are a canonical digest (loop around rand; only the result's validity is specified)
 #[verifier::external_body]
 pub fn generate_random_nullifier_preimage() -> (r: BytesDigest)
